@@ -203,7 +203,7 @@ def fault_applicable(world, f):
             return False
         if k == "missing_sheet":
             return world["build"]["path"] == "excel" and bool(world["build"]["sheets"])
-        if k in ("missing_param_file", "param_row_dropped", "param_row_duplicated"):
+        if k in ("missing_param_file", "param_row_dropped", "param_row_duplicated", "param_file_eacces"):
             return bool(world["params"])
         return True
     if k.startswith("flow_"):
@@ -235,7 +235,8 @@ def fault_applicable(world, f):
 
 DEF_FAULTS = ["flow_undefined_dim", "flow_undefined_process", "stock_undefined_dim", "stock_undefined_process",
               "stock_missing_lifetime", "stock_unused_lifetime", "stock_time_not_first", "param_undefined_dim", "sysenv_not_first"]
-FILE_FAULTS = ["dimfile_2d", "missing_dim_file", "missing_param_file", "missing_sheet", "param_row_dropped", "param_row_duplicated"]
+FILE_FAULTS = ["dimfile_2d", "missing_dim_file", "missing_param_file", "missing_sheet", "param_row_dropped", "param_row_duplicated",
+               "dim_file_eio", "param_file_eacces"]
 
 
 # ============================================================================= files
@@ -380,7 +381,35 @@ def build_system(world, tmp, faults=(), cls=GenericSystem, applied=None, definit
     dim_files, prm_files, dim_sheets, prm_sheets = write_files(world, tmp, faults, applied)
     seed = world["build"]["dict_order"]
     dim_files, prm_files = _reorder(dim_files, seed), _reorder(prm_files, seed + 1)
-    if path == "csv":
-        return cls.from_csv(definition, dimension_files=dim_files, parameter_files=prm_files), definition
+    fl = {f["kind"]: f for f in faults}
+    bad_path = None
+    if "dim_file_eio" in fl:
+        bad_path = (dim_files[world["dims"][fl["dim_file_eio"]["k"] % len(world["dims"])]["name"]], "EIO")
+    elif "param_file_eacces" in fl and world["params"]:
+        bad_path = (prm_files[world["params"][fl["param_file_eacces"]["k"] % len(world["params"])]["name"]], "EACCES")
+    if bad_path is not None:
+        # F4: the open() seen by pandas' I/O layer fails for this one file
+        import errno as _errno
+        import pandas.io.common as pic
+        real_open = open
+
+        def failing_open(file, *a, **k):
+            if isinstance(file, (str, bytes, os.PathLike)) and os.fspath(file) == bad_path[0]:
+                code = getattr(_errno, bad_path[1])
+                if applied is not None:
+                    applied.add("io_error")
+                raise OSError(code, os.strerror(code), bad_path[0])
+            return real_open(file, *a, **k)
+        pic.open = failing_open
+    try:
+        if path == "csv":
+            return cls.from_csv(definition, dimension_files=dim_files, parameter_files=prm_files), definition
+        return _from_excel(cls, definition, dim_files, prm_files, dim_sheets, prm_sheets, seed), definition
+    finally:
+        if bad_path is not None:
+            del pic.open
+
+
+def _from_excel(cls, definition, dim_files, prm_files, dim_sheets, prm_sheets, seed):
     return cls.from_excel(definition, dimension_files=dim_files, parameter_files=prm_files,
-                          dimension_sheets=_reorder(dim_sheets, seed + 2), parameter_sheets=_reorder(prm_sheets, seed + 3)), definition
+                          dimension_sheets=_reorder(dim_sheets, seed + 2), parameter_sheets=_reorder(prm_sheets, seed + 3))
